@@ -75,6 +75,10 @@ class Gen:
                 out.append("call:" + h)
             for a in ATTRS[:3] + ["zz"]:
                 out.append("attr:%s:%s" % (h, hx(a)))
+        # keys no resource can define: the EMPTY key and keys whose first character is multi-byte (a lookup is a map
+        # lookup for ANY string: absent, not a panic)
+        for odd in ("", "\u00e9", "\u65e5x", "\u2212x", "\U0001F600", "\u00e9" + (ids or self.ids)[0]):
+            out += ["has:" + hx(odd), "msg:" + hx(odd), "attr:%s:%s" % (hx(odd), hx("a"))]
         return out
 
 
